@@ -50,7 +50,19 @@ func IntegerSquareRootPrysm(n uint64) uint64 {
 		return v
 	}
 
-	return uint64(math.Sqrt(float64(n)))
+	return floorSquareRootFrom(n, uint64(math.Sqrt(float64(n))))
+}
+
+// The largest integer r such that r**2 is less than or equal to n, reached from the estimate x.
+// A float64 has a 53-bit mantissa: for large n the floating-point estimate can be one too high.
+func floorSquareRootFrom(n uint64, x uint64) uint64 {
+	for x > 4294967295 || x*x > n {
+		x--
+	}
+	for x < 4294967295 && (x+1)*(x+1) <= n {
+		x++
+	}
+	return x
 }
 
 func IsPowerOfTwo(n uint64) bool {
